@@ -456,7 +456,7 @@ func ruleClientTip(c *RC) *RuleResult {
 func ruleClientConfig(c *RC) *RuleResult {
 	r := &RuleResult{Rule: "A-CLIENT-CONFIG", Kind: "AGREE", Doc: "consensus.New supplies every option checkConfig requires; the payload-verification options share one verifier"}
 	newFn := c.Prog.ByName["internal/consensus:New"]
-	cc := c.Prog.fn("checkConfig")
+	cc := c.configChecker()
 	if newFn == nil || cc == nil {
 		r.unresolved("consensus.New / checkConfig")
 		return r
